@@ -29,6 +29,8 @@ pub struct Src<'a> {
     /// kind of use per consumed word: 0 other, 1 f32, 2 f64 (filled when `trace` is set)
     pub kinds: Vec<u8>,
     pub trace: bool,
+    /// alternative injection route for the hidden lane (e.g. the raw-register `From` impl); default `from_vec4`
+    pub mk3a: Option<fn(f32, f32, f32, u32) -> Vec3A>,
 }
 
 /// Typed results of earlier calls, kept with their raw registers so that later steps of a program
@@ -46,10 +48,10 @@ pub const CANARY64: u64 = 0x7ff8_dead_beef_0001;
 
 impl<'a> Src<'a> {
     pub fn new(w: &'a [u64]) -> Self {
-        Src { w, pos: 0, hidden: None, hpos: 0, pool: None, kinds: Vec::new(), trace: false }
+        Src { w, pos: 0, hidden: None, hpos: 0, pool: None, kinds: Vec::new(), trace: false, mk3a: None }
     }
     pub fn with_hidden(w: &'a [u64], h: &'a [u32]) -> Self {
-        Src { w, pos: 0, hidden: Some(h), hpos: 0, pool: None, kinds: Vec::new(), trace: false }
+        Src { w, pos: 0, hidden: Some(h), hpos: 0, pool: None, kinds: Vec::new(), trace: false, mk3a: None }
     }
     #[inline]
     pub fn next(&mut self) -> u64 {
@@ -241,9 +243,10 @@ impl Arg for Vec3A {
                 return p.v3a[(sel as usize / 3) % p.v3a.len()];
             }
         }
-        match h {
-            None => Vec3A::new(x, y, z),
-            Some(h) => Vec3A::from_vec4(Vec4::new(x, y, z, f32::from_bits(h))),
+        match (h, s.mk3a) {
+            (None, _) => Vec3A::new(x, y, z),
+            (Some(h), Some(mk)) => mk(x, y, z, h),
+            (Some(h), None) => Vec3A::from_vec4(Vec4::new(x, y, z, f32::from_bits(h))),
         }
     }
 }
